@@ -438,5 +438,51 @@ pub fn run(args: &Args, c09: bool) -> Report {
             }
         }
     }
+    // --- the unnamed A2ML block: taken over from B with its text when A has none (also a block that the A2ML parser
+    //     rejected while loading in non-strict mode, which exists as text only), A's own block is kept
+    if !c09 && args.replay.is_none() {
+        let variants = [
+            "block \"IF_DATA\" taggedunion { \"XCP\" taggedstruct { (\"EV\" uint)*; }; };",
+            "struct NoIfData { uint; };",
+            "block \"IF_DATA\" taggedunion {",
+        ];
+        let file = |a2ml: Option<&str>, extra: &str| {
+            let blk = a2ml.map(|t| format!("/begin A2ML\n{t}\n/end A2ML\n")).unwrap_or_default();
+            format!("ASAP2_VERSION 1 71\n/begin PROJECT p \"\"\n/begin MODULE m \"\"\n{blk}{extra}\n/end MODULE\n/end PROJECT\n")
+        };
+        let text_of = |f: &a2lfile::A2lFile| f.project.module[0].a2ml.as_ref().map(|a| a.a2ml_text.trim().to_string());
+        for (ia, va) in [None, Some(variants[0]), Some(variants[1])].iter().enumerate() {
+            for (ib, vb) in variants.iter().enumerate() {
+                let (ta, tb) = (file(*va, "/begin UNIT ua \"\" \"\" DERIVED /end UNIT"), file(Some(vb), "/begin UNIT ub \"\" \"\" DERIVED /end UNIT"));
+                let input = format!("{} {}", hex(ta.as_bytes()), hex(tb.as_bytes()));
+                let (Ok(Ok((mut fa, _))), Ok(Ok((mut fb, _)))) = (catch(|| a2lfile::load_from_string(&ta, None, false)), catch(|| a2lfile::load_from_string(&tb, None, false))) else {
+                    rep.fail("infrastructure", input, "the A2ML scenario does not load".to_string());
+                    continue;
+                };
+                let (before_a, before_b) = (text_of(&fa), text_of(&fb));
+                if let Err(p) = catch(|| fa.merge_modules(&mut fb)) {
+                    rep.fail("panic", input, format!("panic: {p}"));
+                    continue;
+                }
+                rep.case(&(ia, ib, "a2ml"), true);
+                rep.bump("a2ml-block");
+                let want = before_a.clone().or(before_b.clone());
+                let got = text_of(&fa);
+                if got != want || want.as_deref().map_or(true, str::is_empty) {
+                    rep.fail("a2ml-text", input.clone(), format!("A2ML block after the merge: {got:?}, expected {want:?} (A had {before_a:?}, B had {before_b:?})"));
+                }
+                // and it survives writing and reading back
+                let wr = fa.write_to_string();
+                match catch(|| a2lfile::load_from_string(&wr, None, false)) {
+                    Ok(Ok((f2, _))) => {
+                        if text_of(&f2) != want {
+                            rep.fail("a2ml-text", input, format!("A2ML block after merge + write + load: {:?}, expected {want:?}", text_of(&f2)));
+                        }
+                    }
+                    _ => rep.fail("a2ml-text", input, "the merged file cannot be read back".to_string()),
+                }
+            }
+        }
+    }
     rep
 }
